@@ -22,9 +22,9 @@ echo "== demo (mutated; must fail)"; timeout 120 go test -vet=off -count=1 -run 
 demo_mut=${PIPESTATUS[0]}
 for d in $DEMOS; do rm -f "$PKG/zz_$(basename $d)"; done
 # checks on the mutated tree
-mkdir -p /tmp/seedrun; cp /verif/KNOWN_FINDINGS.jsonl /tmp/seedrun/
+SR=/tmp/seedrun/$(basename $WT); mkdir -p $SR; cp /verif/KNOWN_FINDINGS.jsonl $SR/
 for P in "$@"; do
-  echo "== check $P (mutated)"; /verif/bin/obfsvet -prop $P -repo "$WT" -verif /tmp/seedrun | grep -E "^(VIOLATED|UNDECIDED|VIOLATION|C[0-9]+ tier)" | head -12
+  echo "== check $P (mutated)"; /verif/bin/obfsvet -prop $P -repo "$WT" -verif $SR | grep -E "^(VIOLATED|UNDECIDED|VIOLATION|C[0-9]+ tier)" | head -12
 done
 git checkout -q -- .
 for d in $DEMOS; do cp "$d" "$PKG/zz_$(basename $d)"; done
